@@ -1,5 +1,5 @@
 (* Draw/Bookmarks.v -- model of Document.makeBookmarkTree
-   (/repo/html/document/document.go:349-397).
+   (/repo/html/document/document.go:358-406).
 
    The Go code builds the outline with pointers into growing slices
    (`lastByDepth []*[]BookmarkNode`): lastByDepth[i] points to the children
@@ -9,9 +9,9 @@
    `roots` is the root slice.  Appending to *lastByDepth[depth-1] and
    truncating lastByDepth to depth entries closes every open node deeper than
    depth-1.  The arithmetic on `skippedLevels` / `previousLevel` is ported
-   literally, including the explicit panic of line 387 and the two index
-   operations that could panic (371: pop of an empty slice, 390:
-   lastByDepth[depth-1]).  Model only; proofs in Draw/BookmarksProofs.v. *)
+   literally, including the explicit panic of line 396 and the two index
+   operations that could panic (380: pop of an empty slice, 399:
+   lastByDepth[depth-1]); Panic sites are these line numbers.  Model only; proofs in Draw/BookmarksProofs.v. *)
 From Verif Require Export Base.GoSem Draw.Links.
 From Coq Require Export QArith List ZArith Bool.
 Export ListNotations.
@@ -27,7 +27,7 @@ Inductive node := Node (e : entry) (children : list node).
 Definition node_entry (n : node) : entry := let 'Node e _ := n in e.
 Definition node_children (n : node) : list node := let 'Node _ c := n in c.
 
-(* document.go:360-362: the double loop over pages and page bookmarks *)
+(* document.go:369-371: the double loop over pages and page bookmarks *)
 Fixpoint entries_from (i : Z) (pages : list (list bookmark)) : list entry :=
   match pages with
   | [] => []
@@ -51,14 +51,14 @@ Definition init : st := mkst [] 0 [] [].
 Definition zsum (l : list Z) : Z := fold_right Z.add 0 l.
 Definition zlen {A} (l : list A) : Z := Z.of_nat (length l).
 
-(* :370-374  for temp < previousLevel { pop; temp += 1 + pop } *)
+(* :379-383  for temp < previousLevel { pop; temp += 1 + pop } *)
 Fixpoint pop_loop (fuel : nat) (temp pv : Z) (sk : list Z) : res (Z * list Z) :=
   match fuel with
   | O => OutOfFuel
   | S f =>
       if temp <? pv then
         match sk with
-        | [] => Panic 371           (* skippedLevels[len-1] on an empty slice *)
+        | [] => Panic 380           (* skippedLevels[len-1] on an empty slice *)
         | p :: sk' => pop_loop f (temp + 1 + p) pv sk'
         end
       else Ok (temp, sk)
@@ -84,27 +84,27 @@ Fixpoint close_n (n : nat) (sp : list open_node) (rs : list node) : list open_no
   | S k => let '(sp', rs') := close1 sp rs in close_n k sp' rs'
   end.
 
-(* :389-393  append the new node to *lastByDepth[depth-1], truncate lastByDepth
+(* :398-402  append the new node to *lastByDepth[depth-1], truncate lastByDepth
    to `depth` entries, push the address of the new node's children *)
 Definition insert_at (depth : Z) (e : entry) (sp : list open_node) (rs : list node)
   : res (list open_node * list node) :=
-  if (depth - 1 <? 0) || (zlen sp <? depth - 1) then Panic 390   (* lastByDepth[depth-1] *)
+  if (depth - 1 <? 0) || (zlen sp <? depth - 1) then Panic 399   (* lastByDepth[depth-1] *)
   else
     let '(sp', rs') := close_n (length sp - Z.to_nat (depth - 1))%nat sp rs in
     Ok ((e, []) :: sp', rs').
 
-(* :362-394 one bookmark *)
+(* :371-403 one bookmark *)
 Definition step (s : st) (e : entry) : res st :=
   let level := e_level e in
   let* sk :=
     if level >? prev s then
-      Ok ((level - prev s - 1) :: skipped s)                                (* :367 *)
+      Ok ((level - prev s - 1) :: skipped s)                                (* :376 *)
     else
-      let* (temp, sk) := pop_loop (S (length (skipped s))) level (prev s) (skipped s) in  (* :369-374 *)
-      if temp >? prev s then Ok ((temp - prev s - 1) :: sk) else Ok sk       (* :375-378 *)
+      let* (temp, sk) := pop_loop (S (length (skipped s))) level (prev s) (skipped s) in  (* :378-383 *)
+      if temp >? prev s then Ok ((temp - prev s - 1) :: sk) else Ok sk       (* :384-387 *)
   in
-  let depth := level - zsum sk in                                            (* :380-385 *)
-  if negb (depth =? zlen sk) || (depth <? 1) then Panic 387                  (* :386-388 *)
+  let depth := level - zsum sk in                                            (* :389-394 *)
+  if negb (depth =? zlen sk) || (depth <? 1) then Panic 396                  (* :395-397 *)
   else
     let* (sp, rs) := insert_at depth e (spine s) (roots s) in
     Ok (mkst sk level sp rs).
@@ -118,7 +118,7 @@ Fixpoint run (s : st) (es : list entry) : res st :=
 Definition close_all (sp : list open_node) (rs : list node) : list node :=
   snd (close_n (length sp) sp rs).
 
-(* :396 return root *)
+(* :405 return root *)
 Definition make_tree (es : list entry) : res (list node) :=
   let* s := run init es in Ok (close_all (spine s) (roots s)).
 
